@@ -502,11 +502,35 @@ def run(ctx: Ctx) -> Result:
             seen.add(f.kind)
             uniq.append(f)
     res.failures = uniq
+    # ... and on the Redis / RabbitMQ consumers, whose hand-over to a cancelled caller is what subscribers of the consume signals stretch
+    from . import _handover
+    _handover.check_subscribers(ctx, res)
     return res
 
 
 def replay(ctx: Ctx, rp: dict) -> dict:
-    case = (rp.get("case") or rp.get("first_diverging_case", {})).get("case")
+    outer = rp.get("case") or rp.get("first_diverging_case", {})
+    if "handover_run" in outer:
+        from . import _handover
+        from ..vloop import run_virtual
+        import repid.connections.redis.utils as ru
+        h = outer["handover_run"]
+        ru.random.random = lambda: 0.8
+        out: dict = {}
+
+        async def hmain(loop):
+            loop.set_exception_handler(lambda l, c: None)
+            runner = _handover.one_run_rabbit if h["scenario"]["name"].startswith("rabbit") else _handover.one_run
+            r = await runner(loop, h["scenario"], h["k"], h["c"])
+            final = r["snaps"][-1]
+            out.update({"snapshots (phase, call, late, custody per message, expired per message)": r["snaps"], "custody_names": _handover.NAMES,
+                        "err": r["err"], "late": r["late"],
+                        "left_behind": {i: cu for i, cu in zip(r["ids"], final[3])
+                                        if cu not in (_handover.Q, _handover.DEAD, _handover.CALLER) and not (cu == _handover.UND and r["late"])}})
+        run_virtual(hmain)
+        out["fails"] = bool(out["err"] or out["left_behind"])
+        return out
+    case = outer.get("case")
     CLOCK.set(CLOCK.now_us())
     import logging
     logging.disable(logging.CRITICAL)
